@@ -123,9 +123,9 @@ def _continue_case(case):
     oe = sa.evaluate_operation
 
     def ev_wrap():
-        if len(results) > 300:
+        if len(results) > c.get("horizon", 40):
             # (a continuation without a point limit can only end by its tolerance: a driver that ignores it would never return)
-            raise core.HarnessError("horizon: more than 300 evaluations in a two-phase run")
+            raise core.HarnessError("horizon: more than %d evaluations in a two-phase run (three times the unlimited baseline)" % c.get("horizon", 40))
         r = oe()
         results.append(np.array(op.get_result(), dtype=float).copy())
         return r
@@ -136,7 +136,12 @@ def _continue_case(case):
     n1 = len(R1[6])
     results = results[:n1]        # evaluations of the loop only (the re-evaluation at the end is not an entry of the history arrays)
     t2, m2 = c["then"]["tol"], c["then"]["max_evaluations"]
-    R2 = sa.continue_adaptive_refinement(tol=t2, max_evaluations=m2)
+    try:
+        R2 = sa.continue_adaptive_refinement(tol=t2, max_evaluations=m2)
+    except core.HarnessError as e:
+        return {"failures": [fail("stop_index", "continuation with tol %r max %r after a run with tol %r max %r (%d evaluations) does not stop: %s"
+                                  % (t2, m2, c["tol"], c["max_evaluations"], n1, e), dict(key, continuation_never_stops=True))],
+                "canon": core.config_key(c), "outcome": (n1, "no stop"), "nontrivial": True, "evals": len(results)}
     errs, pts = list(R2[5]), list(R2[6])
     fails = []
     if c.get("reeval_first"):
@@ -358,10 +363,11 @@ def main(ctx):
             for tol2, mx2 in ((0, nk[2]), (-1, nk[2]), (1e-3, nk[-1]), (1e10, None), (0, nk[0]), (1e-1, None)):
                 if mx2 is None and tol2 < 1e10 and not (res.get("errs") and min(res["errs"]) <= tol2):
                     continue        # the tolerance is not reached within the baseline: the run would not end
-                cases.append({"config": dict(c0, tol=tol1, max_evaluations=mx1, then={"tol": tol2, "max_evaluations": mx2})})
+                hz = 3 * len(nk) + 10       # evaluations of both phases together never exceed twice the unlimited baseline
+                cases.append({"config": dict(c0, tol=tol1, max_evaluations=mx1, horizon=hz, then={"tol": tol2, "max_evaluations": mx2})})
                 ncont += 1
                 if (tol1, mx1) in ((1e-1, nk[1]), (0, nk[1])):
-                    cases.append({"config": dict(c0, tol=tol1, max_evaluations=mx1, reeval_first=True, then={"tol": tol2, "max_evaluations": mx2})})
+                    cases.append({"config": dict(c0, tol=tol1, max_evaluations=mx1, horizon=hz, reeval_first=True, then={"tol": tol2, "max_evaluations": mx2})})
                     ncont += 1
     results = ctx.map(cases, chunksize=2)
     for case, res in zip(cases, results):
